@@ -42,7 +42,7 @@ def available():
 def setup():
     t0 = time.time()
     engine.regen_all(available())
-    rc, out = core.lake(["build"])
+    rc, out = core.lake(["build", "AslModel", "Gen", "AslProofs", "AslProps"] + ["asl_" + load(p).DRIVER for p in available()])
     if rc != 0:
         print(out[-6000:])
         print("setup: lake build failed")
